@@ -288,7 +288,11 @@ func (r *rng) genValue(evs []event, depth int, o genOpts) []event {
 		if r.bool() {
 			announced = -1
 		}
-		evs = append(evs, event{kind: evArrStart, n: announced, bt: structform.AnyType})
+		abt := structform.AnyType
+		if r.chance(1, 10) {
+			abt = structform.ZeroType // "no element type": any elements
+		}
+		evs = append(evs, event{kind: evArrStart, n: announced, bt: abt})
 		for i := 0; i < n; i++ {
 			evs = r.genValue(evs, depth+1, o)
 		}
@@ -302,7 +306,11 @@ func (r *rng) genValue(evs []event, depth int, o genOpts) []event {
 		if r.bool() {
 			announced = -1
 		}
-		evs = append(evs, event{kind: evObjStart, n: announced, bt: structform.AnyType})
+		obt := structform.AnyType
+		if r.chance(1, 10) {
+			obt = structform.ZeroType
+		}
+		evs = append(evs, event{kind: evObjStart, n: announced, bt: obt})
 		for i := 0; i < n; i++ {
 			k := r.genKey(o)
 			if o.refs && r.bool() {
@@ -346,6 +354,26 @@ func (r *rng) genValue(evs []event, depth int, o genOpts) []event {
 		if r.bool() {
 			announced = -1
 		}
+		if r.chance(1, 3) && bt != structform.ByteType {
+			// typed basic object: announced element type with matching member values
+			evs = append(evs, event{kind: evObjStart, n: announced, bt: bt})
+			seen := map[string]bool{}
+			cnt := 0
+			for i := 0; i < n; i++ {
+				k := r.genKey(o)
+				if seen[string(k)] {
+					continue
+				}
+				seen[string(k)] = true
+				cnt++
+				s := r.genTyped(bt, o)
+				evs = append(evs, event{kind: evKey, s: k}, event{kind: s.kind, sc: s})
+			}
+			if announced >= 0 {
+				evs[len(evs)-1-2*cnt].n = cnt
+			}
+			return append(evs, event{kind: evObjEnd})
+		}
 		evs = append(evs, event{kind: evArrStart, n: announced, bt: bt})
 		for i := 0; i < n; i++ {
 			s := r.genTyped(bt, o)
@@ -357,7 +385,7 @@ func (r *rng) genValue(evs []event, depth int, o genOpts) []event {
 
 // genDeep wraps a value into many nested containers (state stacks spill at 32/64).
 func (r *rng) genDeep(o genOpts) []event {
-	d := []int{31, 32, 33, 63, 64, 65, 66}[r.n(7)]
+	d := []int{3, 4, 5, 6, 7, 8, 9, 12, 17, 31, 32, 33, 63, 64, 65, 66}[r.n(16)]
 	var evs []event
 	kinds := make([]bool, d)
 	for i := 0; i < d; i++ {
